@@ -4,6 +4,7 @@ package symgo
 
 import (
 	"fmt"
+	"math/rand"
 	"sort"
 	"strings"
 
@@ -80,6 +81,10 @@ type Path struct {
 	depth       int
 	bounds      map[string]int
 	decls       []string
+	concrete    bool       // concrete mode: draws are random values, no solver (translator validation)
+	rng         *rand.Rand
+	failed      []string   // labels of assertions that failed in concrete mode
+	ints        []int64    // values drawn so far (re-used to make equalities likely)
 	unsatQueries []string
 }
 
@@ -136,6 +141,9 @@ func (p *Path) decideBool(cond *Term) bool {
 	if v, ok := p.known(cond); ok {
 		return v
 	}
+	if p.concrete {
+		panic(engineError{msg: "symbolic condition in concrete mode: " + cond.String()})
+	}
 	neg := tNot(cond)
 	if p.pos < len(p.prefix) {
 		d := p.prefix[p.pos]
@@ -185,6 +193,10 @@ func (p *Path) choose(n int, guards []*Term) int {
 			p.assertPC(guards[d])
 		}
 		return d
+	}
+	if p.concrete && guards == nil {
+		// schedule / map-order choice in concrete mode: any alternative (the native run is not controlled either)
+		return p.rng.Intn(n)
 	}
 	first := -1
 	for i := 0; i < n; i++ {
@@ -271,6 +283,10 @@ func (p *Path) assert(cond value, label string) {
 			p.discharged++
 			return
 		}
+		if p.concrete {
+			p.failed = append(p.failed, label)
+			return
+		}
 		v, m := p.check(nil, true)
 		if v == Unsat {
 			// path itself infeasible (can happen after unknown verdicts)
@@ -322,6 +338,29 @@ func trunc(s string, n int) string {
 		return s[:n] + "..."
 	}
 	return s
+}
+
+// randInt draws a concrete integer of width w biased towards small values and values seen before.
+func (p *Path) randInt(w int) int64 {
+	var v int64
+	switch k := p.rng.Intn(10); {
+	case k < 3:
+		v = int64(p.rng.Intn(5))
+	case k < 6 && len(p.ints) > 0:
+		v = p.ints[p.rng.Intn(len(p.ints))] + int64(p.rng.Intn(3)) - 1
+	case k < 8:
+		v = p.rng.Int63n(1 << 20)
+	default:
+		v = p.rng.Int63() >> uint(p.rng.Intn(3))
+		if p.rng.Intn(4) == 0 {
+			v = -v
+		}
+	}
+	if w == 32 {
+		v = int64(int32(v))
+	}
+	p.ints = append(p.ints, v)
+	return v
 }
 
 func (p *Path) assume(cond value) {
